@@ -11,11 +11,11 @@ import (
 	"fmt"
 	"math/big"
 
-	"github.com/btcsuite/btcd/btcec/v2"
 	"github.com/bnb-chain/tss-lib/v2/crypto/ckd"
 	ecdsakeygen "github.com/bnb-chain/tss-lib/v2/ecdsa/keygen"
 	ecdsasign "github.com/bnb-chain/tss-lib/v2/ecdsa/signing"
 	"github.com/bnb-chain/tss-lib/v2/tss"
+	"github.com/btcsuite/btcd/btcec/v2"
 	"golang.org/x/crypto/ripemd160"
 
 	"verif/harness/internal/sched"
@@ -239,10 +239,11 @@ func hdSign(r *vc.Run, g rng) {
 	signers := []int{0, 1, 2}
 	base := reloadKeys(keys0)
 	before := snapshotKeys(base)
-	for seq := 0; seq < r.Pick(2, 4); seq++ {
+	for seq := 0; seq < r.Pick(3, 12); seq++ {
 		cc := make([]byte, 32)
 		r.Rng.Read(cc)
-		path := []uint32{uint32(12 + seq), 209, uint32(r.Rng.Intn(1000))}
+		// path lengths 3, 0, 1, 5, 2, 4 ... (the empty path gives offset 0 and child = parent)
+		path := []uint32{uint32(12 + seq), 209, uint32(r.Rng.Intn(1000)), 0, 2147483647}[:[]int{3, 0, 1, 5, 2, 4}[seq%6]]
 		ver, _ := hex.DecodeString("0488ade4")
 		parent := &ckd.ExtendedKey{PublicKey: ecdsa.PublicKey{Curve: tss.S256(), X: base[0].ECDSAPub.X(), Y: base[0].ECDSAPub.Y()}, Depth: 0, ChildIndex: 0, ChainCode: cc, ParentFP: []byte{0, 0, 0, 0}, Version: ver}
 		delta, child, err := ckd.DeriveChildKeyFromHierarchy(path, parent, q, tss.S256())
@@ -252,8 +253,19 @@ func hdSign(r *vc.Run, g rng) {
 		// the signing parties get their own working copies with the public data shifted by delta*G
 		work := reloadKeys(base)
 		sk, sp := pickKeys(work, pids, signers)
-		if err := ecdsasign.UpdatePublicKeyAndAdjustBigXj(delta, sk, &child.PublicKey, tss.S256()); err != nil {
-			r.Violate("hd-adjust-failed", "UpdatePublicKeyAndAdjustBigXj failed: "+err.Error(), fmt.Sprintf("hd sequence %d", seq))
+		replay0 := fmt.Sprintf("derive along path %v from the vendored group key (chain code %x), then UpdatePublicKeyAndAdjustBigXj(delta=%s)", path, cc, delta)
+		if perr := func() (e interface{}) {
+			defer func() { e = recover() }()
+			if err := ecdsasign.UpdatePublicKeyAndAdjustBigXj(delta, sk, &child.PublicKey, tss.S256()); err != nil {
+				return err
+			}
+			return nil
+		}(); perr != nil {
+			key := "hd-adjust-failed"
+			if len(path) == 0 || delta.Sign() == 0 {
+				key = "hd-adjust-zero-offset"
+			}
+			r.Violate(key, fmt.Sprintf("UpdatePublicKeyAndAdjustBigXj fails for a derived offset (path length %d, offset %s): %v", len(path), delta, perr), replay0)
 			continue
 		}
 		m := g.below(q)
@@ -277,7 +289,11 @@ func hdSign(r *vc.Run, g rng) {
 		}
 		replay := fmt.Sprintf("hd derive-then-sign sequence %d path=%v", seq, path)
 		childPub := &ecdsa.PublicKey{Curve: tss.S256(), X: child.X, Y: child.Y}
-		ecdsaOracles(r, sr, childPub, m, 0, replay, toECDSAPub(base[0]))
+		var parentPub *ecdsa.PublicKey
+		if delta.Sign() != 0 {
+			parentPub = toECDSAPub(base[0])
+		}
+		ecdsaOracles(r, sr, childPub, m, 0, replay, parentPub)
 		// model: signing with shares x_i + delta
 		ids := make([]*big.Int, 3)
 		xs := make([]*big.Int, 3)
